@@ -3,7 +3,7 @@ BASE_OFF = "cd /repo && GOFLAGS=-mod=mod GOPROXY=off go test -mod=mod -json -vet
 
 ENGINES = [
     dict(name="store", path="specs/Store.tla specs/Merkle.tla specs/StoreTrace.tla harness/areas/store harness/names checks/store_common.py",
-         serves_properties=["C01", "C04", "C07", "C08", "C14"],
+         serves_properties=["C01", "C04", "C07", "C08", "C11", "C14"],
          kind_free_text="implementation-shaped spec of the SQLite processors and trees (frontier cache, rollback callbacks, never-cleaned node table); "
                         "TLC exhaustive; edge-cover behaviours replayed into the real processors with SQL-trigger fault injection; named snapshots judged by TLC"),
     dict(name="epoch", path="specs/Epoch.tla specs/EpochTrace.tla harness/areas/epoch checks/C18.py", serves_properties=["C18"],
@@ -34,6 +34,12 @@ CHECKS = {
         text="For every state reached in the reorg and fault explorations TLC checks that the top-down walk over the node table yields, for every "
              "recorded root and covered position, the reference siblings and leaf; on the real store GetProof is called for every (recorded root, "
              "position) after every step and each sibling must carry the name of the reference sibling subtree."),
+    "C11": dict(engine="store", category="model_checking", design_ref="DESIGN.md section 5 C11", technique=_STORE_TECH, note=_STORE_NOTE,
+        text="TLC checks the L1 info processor as coded (index read inside the tx, leaf row before AddLeaf, V2 announcement check, VerifyBatches "
+             "with zero/unchanged skip, UpsertLeaf walking the last root, root hash as primary key) against: consecutive indices, each root = "
+             "reference root, rollup exit tree = last non-zero exit root per rollup, for all interleavings within the bounds; behaviours are "
+             "replayed into the real processor and GetInfoByIndex / GetInfoByGlobalExitRoot / roots / rollup tree roots, leaves and proofs are named "
+             "by the reference implementation and judged by TLC. Finding F5 (recurring rollup-exit-tree root) is a listed known finding."),
     "C14": dict(engine="store", category="model_checking", design_ref="DESIGN.md section 5 C14", technique=_STORE_TECH, note=_STORE_NOTE,
         text="TLC explores all ways to halt within the bounds, all reorg points and continuations; on the real store every exported method of the "
              "facade (enumerated by reflection, small allow list of non-data methods) is called after every step: while the node has reported an "
